@@ -53,6 +53,17 @@ func c08Catalogue() []Case {
 	out = append(out, Case{Prof: "c08", Keys: []string{"x"}, Epilogue: true, Note: "begin vs begin vs overwrite vs gc",
 		Prologue: []COp{{K: "set", Key: 0, Len: 1}},
 		Clients:  [][]COp{reader(1, 2, 1, false), reader(2, 3, 1, false), {{K: "set", Key: 0, Len: 2}, {K: "gc"}}}})
+	// a commit of 300 keys against a snapshot reader that begins meanwhile: all of the commit or none of it
+	// (light backend only; every single forced preemption of the concurrent phase)
+	// (no epilogue: reading 300 keys back by every actor would make the history longer than the search handles)
+	wide := Case{Prof: "c08", Wide: true, Note: "reader vs a commit of 300 keys",
+		Prologue: []COp{{K: "begin", Slot: 1, Lvl: 1}}}
+	for i := 0; i < 300; i++ {
+		wide.Keys = append(wide.Keys, fmt.Sprintf("k%03d", i))
+		wide.Prologue = append(wide.Prologue, COp{K: "set", Slot: 1, Key: i, Len: 1})
+	}
+	wide.Clients = [][]COp{{{K: "commit", Slot: 1}}, {{K: "begin", Slot: 2, Lvl: 2}, {K: "keys", Slot: 2}, {K: "get", Slot: 2, Key: 0}, {K: "get", Slot: 2, Key: 299}, {K: "keys", Slot: 2}, {K: "rollback", Slot: 2}, {K: "keys"}}}
+	out = append(out, wide)
 	return out
 }
 
@@ -66,6 +77,9 @@ func TestC08Enum(t *testing.T) {
 	shard, n := shardInfo()
 	counter := 0
 	for _, prog := range c08Catalogue() {
+		if prog.Wide {
+			continue // hundreds of keys: on the light backend only (part lenum)
+		}
 		if !enumerateSingle(t, prop, part, prog, shard, n, &counter) {
 			return
 		}
